@@ -44,6 +44,9 @@ Pad(i, w) == LET s == ToString(i) IN
 
 Member(n, t, o) == [n |-> n, t |-> t, outname |-> o]
 
+HasSlash(x) == \E i \in 1..Len(x) : SubSeq(x, i, i) = "/"
+LegalName(x) == x \notin {"", ".", ".."} /\ ~HasSlash(x)
+
 RECURSIVE Mat(_, _, _, _)
 Mat(p, m, v, root) ==
     IF IsNull(v) THEN v
@@ -56,7 +59,10 @@ Mat(p, m, v, root) ==
             THEN VArr([i \in DOMAIN v.a |-> Mat(p, Member(Pad(i - 1, Width(Len(v.a))), Elem(m.t), ""), v.a[i], dir)])
             ELSE v
         ELSE IF m.t.m = 1 THEN
-            IF v.k = "obj" THEN VObj([x \in DOMAIN v.o |-> Mat(p, Member(x, Elem(m.t), ""), v.o[x], dir)]) ELSE v
+            \* a key that cannot be a file name (empty, ".", "..", or holding a "/") has no place under
+            \* outs/: nothing is demanded of that entry (it may be left out), the others are moved
+            IF v.k = "obj" THEN VObj([x \in DOMAIN v.o |-> IF LegalName(x) THEN Mat(p, Member(x, Elem(m.t), ""), v.o[x], dir)
+                                                          ELSE [k |-> "any"]]) ELSE v
         ELSE \* struct
             IF v.k = "obj"
             THEN LET fs == Fields(p, m.t) IN
